@@ -119,7 +119,14 @@ class C19(Check):
         nested = case.get("sub") is not None and case.get("fname", "").startswith("sub/")
         fn = sqlfluff.fix if fix else sqlfluff.lint
         if nested or cli.get("ignore") or cli.get("disable_noqa"):
-            return fn(case["sql"], config=C.file_config(pr))
+            cfg = C.file_config(pr)
+            if len(case["sql"]) % 3 == 0:
+                # a Python user re-using one config object: another string with in-file directives (core and nested
+                # rule options) is linted first; the object must come out unchanged
+                fn("-- sqlfluff:rules:capitalisation.keywords:capitalisation_policy:lower\n"
+                   "-- sqlfluff:rules:layout.long_lines:ignore_comment_lines:True\n-- sqlfluff:max_line_length:30\nSELECT 1\n",
+                   config=cfg)
+            return fn(case["sql"], config=cfg)
         kw = {"config_path": os.path.join(pr.root, ".sqlfluff")}
         if cli.get("dialect"):
             kw["dialect"] = cli["dialect"]
